@@ -155,7 +155,10 @@ CLAIMS = {
          "theorem for every run), bounded closing with clock fairness proved, send-after-close. Close codes and timer constants "
          "regenerated from the source. Differential run: all event sequences up to length 4 (thorough 5) over the event "
          "alphabet x role x failByDrop x echo x timeout grid plus random walks, per-step, on Twisted Clock and an asyncio "
-         "virtual loop, plus an oracle written from the property text.",
+         "virtual loop, plus an oracle written from the property text; every send API in every state incl. the streaming "
+         "API mid-message; every close code the library itself chooses is a generated table (AST walk over all "
+         "_fail_connection/sendClose sites, fail-closed) proved wire-legal (C05_library_close_codes_wire_legal), with "
+         "application callbacks raising during the handshake as events.",
          "Partial: that a real reactor fires timers and the OS closes the socket is assumed (virtual clocks). Trusted: hand-"
          "written model tied by differential runs; incoming traffic modelled as already parsed events; sync/chopped writes not "
          "modelled. Known findings: 1-octet-peer-close-reported-clean, later-invalid-close-overwrites-report.",
@@ -255,7 +258,9 @@ CLAIMS = {
          "every split, both roles and frameworks, judged by an independent RFC oracle and re-evaluated by the model; "
          "configuration plumbing (every option alone / before / after / together / set back on both factories vs the "
          "protocol's effective options), the three receive APIs with application hooks that do not chain (nothing "
-         "reaches the application after a failure), several connections in one process.",
+         "reaches the application after a failure), several connections in one process with interleaved reads "
+         "(C02_connections_independent), the negotiated permessage-deflate parameter grid with a real zlib peer, "
+         "failure paths with sync/chopped writes still queued.",
          "Trusted: Coq kernel, the ast/import translator (fail-closed), CPython utf-8 codec and zlib as oracles. Modelled, not "
          "verified: the UTF-8 validator as the RFC 3629 automaton (table equality is C09), the masker as xor_spec (C15), the "
          "decompressor as a Section oracle; timers, statistics, asyncio receive queue unmodelled. Known findings: split-dependent/"
@@ -270,7 +275,9 @@ CLAIMS = {
          "limits grid x sizes L-1/L/L+1/10L x fragment layouts x role x policy x delivery shapes, real-zlib cap; every send API "
          "(sendMessage whole/fragmented/doNotCompress, prepared messages) x deflate on/off x limits with a real inflater as "
          "peer (theorems C16_send_refused_all_apis, C16_send_whole_or_nothing, C16_peer_reads_accepted over any "
-         "compressor/inflater pair obeying the context-takeover laws); configuration plumbing; three receive APIs.",
+         "compressor/inflater pair obeying the context-takeover laws); configuration plumbing incl. reconfiguring the "
+         "factory after the connection is up; three receive APIs; the 1009 close frame reaches the wire behind queued "
+         "writes (C16_close_frame_reaches_wire).",
          "Partial: zlib is an oracle (stream laws in theorems, replay tape in runs); limits bound the wire payload. Known "
          "findings: decompress-cap/truncated, decompress-cap/escaped-error.",
          "invariants, simulation, refutation witness, differential runs"),
